@@ -55,7 +55,9 @@ SELF_REFERENTIAL = {'l2', 'indl2', 'linf', 'indl1', 'kl', 'klcc', 'klce', 'klcec
 
 def EXPECTED_BRANCHES(ctx=None):
     return (fc.history_expected_branches() + fc.wide_expected_branches('C08') +
-            fc.forms_expected_branches())
+            fc.forms_expected_branches() + list(EXTRA_BRANCHES) +
+            ['sepfy/fy', 'sepfy/fy-eq', 'sepfy/biconj', 'sepfy/conj-raises', 'sepfy-model/ok',
+             'sepfy-model/noconj'])
 
 # --------------------------------------------------------------------------
 
@@ -580,12 +582,622 @@ def compare_moreau(ctx, desc, impl, ans, stream):
         ctx.disagree(dict(d2, which='model-lhs'), desc['x'], kv.get('lhs'))
 
 
+# --------------------------------------------------------------------------
+# ROUND 5: strata for anchored code that no other stream enters (docs/covmap/C08.md).
+# Every stratum is a pure function `cfg -> [(key, what), ...]` of a JSON-able configuration, so
+# that a violation is replayed by calling it again; `hits` collects the branches reached.
+
+def _np_nuclear(X, outer, sv):
+    """Independent value of NuclearNorm: X[i, j, k] = component (i, j) at point k."""
+    vals = []
+    for k in range(X.shape[2]):
+        sg = np.linalg.svd(X[:, :, k], compute_uv=False)
+        vals.append(float(np.max(sg)) if sv == float('inf') else float(np.sum(sg ** sv) ** (1.0 / sv)))
+    vals = np.array(vals)
+    return float(np.max(vals)) if outer == float('inf') else float(np.sum(vals ** outer) ** (1.0 / outer))
+
+
+def _conj_exp(p):
+    return float('inf') if p == 1 else (1.0 if p == float('inf') else p / (p - 1.0))
+
+
+def x_nuclear(cfg, hits):
+    """NuclearNorm <-> IndicatorNuclearNormUnitBall: value vs an independent SVD, class and
+    exponents of the conjugates, Fenchel-Young with equality at the prox subgradient, minimality
+    of the proximal against perturbations, Moreau with the indicator's proximal."""
+    import odl
+    out = []
+    n, m, k = cfg['shape']
+    outer, sv = [float(v) for v in cfg['exps']]
+    sp = odl.ProductSpace(odl.ProductSpace(odl.rn(k), m), n)
+    X = np.array(cfg['x'], dtype=float).reshape(n, m, k)
+    Y = np.array(cfg['y'], dtype=float).reshape(n, m, k)
+    x, y = sp.element(X), sp.element(Y)
+    N = odl.solvers.NuclearNorm(sp, outer_exp=outer, singular_vector_exp=sv)
+    hits.add('extra/nuclear/exps={:g},{:g}'.format(outer, sv))
+    nx = float(N(x))
+    ref = _np_nuclear(X, outer, sv)
+    if not close(nx, ref, 1.0, 1e-9, 1e-9):
+        out.append(('nuclear-value', 'NuclearNorm(x) = {!r}, independent SVD value {!r}'.format(nx, ref)))
+    I = N.convex_conj
+    if type(I).__name__ != 'IndicatorNuclearNormUnitBall':
+        out.append(('nuclear-conj-class', 'NuclearNorm.convex_conj is a ' + type(I).__name__))
+        return out
+    D = I.convex_conj          # dual norm object held by the indicator's conjugate
+    NN = D.convex_conj.convex_conj
+    dual_ref = _np_nuclear(Y, _conj_exp(outer), _conj_exp(sv))
+    # the indicator must be the ball of the DUAL norm (conjugate exponents on both levels)
+    iy = float(I(y))
+    if (iy == 0) != (dual_ref <= 1 + 1e-9) and abs(dual_ref - 1) > 1e-6:
+        out.append(('nuclear-indicator', 'indicator(y) = {!r} but dual norm (independent) = {!r}'.format(iy, dual_ref)))
+    if dual_ref > 0:
+        yb = y * (0.999 / dual_ref)
+        if float(I(yb)) != 0:
+            out.append(('nuclear-indicator', 'indicator != 0 at a point of dual norm 0.999'))
+        elif nx < float(x.inner(yb)) - 1e-9 * max(1.0, nx):
+            out.append(('fenchel-young-inequality', 'N(x) + I(y) = {!r} < <x,y> = {!r}'.format(nx, float(x.inner(yb)))))
+        hits.add('extra/nuclear/fy')
+    # biconjugate: I.convex_conj is N again (same exponents, same values)
+    bx = float(I.convex_conj(x))
+    if not close(bx, nx, 1.0, 1e-9, 1e-9):
+        out.append(('biconjugate', 'N**(x) = {!r} but N(x) = {!r}'.format(bx, nx)))
+    if not close(float(NN(y)), float(D(y)), 1.0, 1e-9, 1e-9):
+        out.append(('biconjugate', 'dual norm round trip changed the value'))
+    sigma = float(cfg['sigma'])
+    st, p = safe_call(lambda: N.proximal(sigma)(x))
+    if outer != 1:
+        hits.add('extra/nuclear/prox-raises')
+        if 'NotImplementedError' not in st:
+            out.append(('nuclear-prox', 'proximal for outer_exp != 1 gave ' + st))
+        return out
+    if st != 'ok':
+        out.append(('nuclear-prox', 'proximal raised ' + st))
+        return out
+    hits.add('extra/nuclear/prox-sv={:g}'.format(sv))
+    obj = lambda z: float(N(z)) + float((z - x).norm()) ** 2 / (2 * sigma)  # noqa
+    op = obj(p)
+    rs = np.random.RandomState(int(cfg.get('pseed', 0)))
+    for t in (1e-2, 1e-1):
+        for _ in range(4):
+            z = p + sp.element(rs.standard_normal((n, m, k)) * t)
+            if obj(z) < op - 1e-9 * max(1.0, abs(op)):
+                out.append(('nuclear-prox-minimiser', 'objective at prox {!r} > at a perturbation {!r}'.format(op, obj(z))))
+                break
+    # subgradient q = (x - p)/sigma: in the dual ball and N(p) = <p, q>
+    q = (x - p) / sigma
+    Q = np.array([[np.asarray(q[i][j]) for j in range(m)] for i in range(n)])
+    dq = _np_nuclear(Q, float('inf'), _conj_exp(sv))
+    if dq > 1 + 1e-8:
+        out.append(('nuclear-prox-subgradient', '(x - prox)/sigma has dual norm {!r} > 1'.format(dq)))
+    npv, pq = float(N(p)), float(p.inner(q))
+    if abs(npv - pq) > 1e-8 * max(1.0, npv):
+        out.append(('fenchel-young-equality', 'N(p) = {!r} but <p, (x-p)/sigma> = {!r}'.format(npv, pq)))
+    st, p2 = safe_call(lambda: I.proximal(1.0 / sigma)(x / sigma))
+    if st != 'ok':
+        out.append(('nuclear-conj-prox', 'indicator proximal raised ' + st))
+    else:
+        hits.add('extra/nuclear/moreau')
+        resid = float((p + sigma * p2 - x).norm())
+        if not resid <= 1e-8 * max(1.0, float(x.norm())):
+            out.append(('moreau', 'residual {!r}'.format(resid)))
+        if _np_nuclear(np.array([[np.asarray(p2[i][j]) for j in range(m)] for i in range(n)]),
+                       float('inf'), _conj_exp(sv)) > 1 + 1e-8:
+            out.append(('nuclear-conj-prox', 'projection lies outside the dual ball'))
+    return out
+
+
+def x_simple(cfg, hits):
+    """simple_functional: the conjugate swaps the user's callables; oracles on the result."""
+    import odl
+    from odl.solvers.functional.functional import simple_functional
+    out = []
+    S = fc.get_space(cfg['space'])
+    sp = S.space
+    x, y = S.elem(cfg['x']), S.elem(cfg['y'])
+    a = float(cfg['a'])            # f = a/2 ||x||^2, f* = 1/(2a) ||y||^2
+    f0 = lambda z: a / 2 * float(z.inner(z))          # noqa
+    g0 = lambda z: 1 / (2 * a) * float(z.inner(z))    # noqa
+    pf = lambda s: odl.ScalingOperator(sp, 1 / (1 + s * a))      # noqa
+    pg = lambda s: odl.ScalingOperator(sp, 1 / (1 + s / a))      # noqa
+    as_op = cfg['grad_as_operator']
+    gf = odl.ScalingOperator(sp, a) if as_op else (lambda z: a * z)
+    gg = odl.ScalingOperator(sp, 1 / a) if as_op else (lambda z: z / a)
+    f = simple_functional(sp, fcall=f0, grad=gf, prox=pf, grad_lip=a, convex_conj_fcall=g0,
+                          convex_conj_grad=gg, convex_conj_prox=pg, convex_conj_grad_lip=1 / a)
+    hits.add('extra/simple/' + ('operator-grad' if as_op else 'callable-grad'))
+    st, v = safe_call(lambda: (float(f(x)), f.convex_conj, ))
+    if st != 'ok':
+        return [('simple-raises', st)]
+    fx, g = v
+    st, v = safe_call(lambda: (float(g(y)), float(g.convex_conj(x)), g.gradient(y), f.gradient(x),
+                                g.proximal(0.5)(y), f.proximal(2.0)(x), float(g.grad_lipschitz),
+                                float(f.grad_lipschitz)))
+    if st != 'ok':
+        return [('simple-raises', st)]
+    gy, bx, ggy, gfx, pgy, pfx, gl, fl_ = v
+    xy = float(x.inner(y))
+    tol = 1e-9 * max(1.0, abs(fx), abs(gy), abs(xy))
+    if fx + gy < xy - tol:
+        out.append(('fenchel-young-inequality', 'f(x)+f*(y) = {!r} < <x,y> = {!r}'.format(fx + gy, xy)))
+    if abs(gy - g0(y)) > tol:
+        out.append(('simple-conj-value', 'convex_conj(y) = {!r}, supplied callable gives {!r}'.format(gy, g0(y))))
+    if abs(bx - fx) > tol:
+        out.append(('biconjugate', 'f**(x) = {!r} but f(x) = {!r}'.format(bx, fx)))
+    if float((ggy - y / a).norm()) > 1e-9 or float((gfx - a * x).norm()) > 1e-9:
+        out.append(('simple-gradient', 'gradient of f or f* is not the supplied one'))
+    e = float(f(x)) + float(g(gfx)) - float(x.inner(gfx))
+    if abs(e) > 1e-8 * max(1.0, abs(fx)):
+        out.append(('fenchel-young-equality', 'at y = grad f(x): gap {!r}'.format(e)))
+    if float((pgy - y / (1 + 0.5 / a)).norm()) > 1e-9 or float((pfx - x / (1 + 2.0 * a)).norm()) > 1e-9:
+        out.append(('simple-proximal', 'proximal of f or f* is not the supplied one'))
+    if not (close(gl, 1 / a) and close(fl_, a)):
+        out.append(('simple-grad-lipschitz', 'grad_lipschitz f: {!r}, f*: {!r}'.format(fl_, gl)))
+    s = float(cfg['sigma'])
+    resid = float((f.proximal(s)(x) + s * g.proximal(1 / s)(x / s) - x).norm())
+    if not resid <= 1e-9 * max(1.0, float(x.norm())):
+        out.append(('moreau', 'residual {!r}'.format(resid)))
+    # nothing supplied: every attribute raises NotImplementedError, the conjugate too
+    e0 = simple_functional(sp)
+    for nm, fn in (('call', lambda: e0(x)), ('gradient', lambda: e0.gradient),
+                   ('proximal', lambda: e0.proximal), ('conj-call', lambda: e0.convex_conj(x))):
+        st, _ = safe_call(fn)
+        if 'NotImplementedError' not in st:
+            out.append(('simple-empty', nm + ' of an empty simple_functional gave ' + st))
+    hits.add('extra/simple/empty')
+    return out
+
+
+def x_box(cfg, hits):
+    """IndicatorBox / IndicatorNonnegativity: value, projection (vs np.clip), default conjugate
+    (FunctionalDefaultConvexConjugate) and the Moreau decomposition through it."""
+    import odl
+    out = []
+    S = fc.get_space(cfg['space'])
+    sp = S.space
+    x = S.elem(cfg['x'])
+    lo, hi = cfg['lo'], cfg['hi']
+    if cfg['nonneg']:
+        f = odl.solvers.IndicatorNonnegativity(sp)
+        lo, hi = 0.0, None
+    else:
+        f = odl.solvers.IndicatorBox(sp, lo, hi)
+    hits.add('extra/box/' + ('nonneg' if cfg['nonneg'] else 'lo={},hi={}'.format(lo is not None, hi is not None)))
+    s = float(cfg['sigma'])
+    st, v = safe_call(lambda: (float(f(x)), f.proximal(s)(x), f.convex_conj))
+    if st != 'ok':
+        return [('box-raises', st)]
+    fx, p, g = v
+    ref = np.clip(np.asarray(x), lo, hi)
+    if float((p - sp.element(ref)).norm()) > 0:
+        out.append(('box-proximal', 'projection differs from np.clip'))
+    inside = bool(np.all(np.asarray(x) == ref))
+    if (fx == 0) != inside or (fx != 0 and fx != float('inf')):
+        out.append(('box-value', 'indicator(x) = {!r}, x inside the box: {}'.format(fx, inside)))
+    if float(f(p)) != 0:
+        out.append(('box-value', 'indicator at the projection is not 0'))
+    if type(g).__name__ != 'FunctionalDefaultConvexConjugate' or g.convex_conj is not f:
+        out.append(('box-conj', 'convex_conj is {} / biconjugate is not the functional'.format(type(g).__name__)))
+    st, p2 = safe_call(lambda: g.proximal(1 / s)(x / s))
+    if st != 'ok':
+        out.append(('box-conj-prox', st))
+    else:
+        resid = float((p + s * p2 - x).norm())
+        if not resid <= 1e-9 * max(1.0, float(x.norm())):
+            out.append(('moreau', 'residual {!r}'.format(resid)))
+        # support function: sigma_C(q) >= <c, q> for c in C, with equality at c = the projection
+        # when q = (x - p)/s is the normal direction: checked as  <p, q> >= <c, q>  for box corners
+        q = (x - p) / s
+        for c in (np.clip(np.asarray(x) * 0 + 1e3, lo, hi), np.clip(np.asarray(x) * 0 - 1e3, lo, hi)):
+            if np.all(np.isfinite(c)) and float(sp.element(c).inner(q)) > float(p.inner(q)) + 1e-9:
+                out.append(('box-normal-cone', '(x - proj)/s is not in the normal cone at the projection'))
+    return out
+
+
+def x_sep(cfg, hits):
+    """SeparableSum.__getitem__ (index / slice / list) against the components, also for the
+    conjugate (conj of a separable sum = separable sum of the conjugates)."""
+    import odl
+    out = []
+    r3 = odl.rn(3)
+    comps = {'l1': odl.solvers.L1Norm(r3), 'l2': odl.solvers.L2Norm(r3),
+             'l2sq': odl.solvers.L2NormSquared(r3), 'hub': odl.solvers.Huber(r3, 0.5)}
+    names = cfg['parts']
+    fs_ = [comps[nm] for nm in names]
+    f = odl.solvers.SeparableSum(*fs_)
+    g = f.convex_conj
+    x = f.domain.element([np.array(v, dtype=float) for v in cfg['x']])
+    y = f.domain.element([np.array(v, dtype=float) * 0.125 for v in cfg['y']])
+    tot = totc = 0.0
+    for i, fi in enumerate(fs_):
+        hits.add('extra/sep/getitem-int')
+        if f[i] is not fi:
+            out.append(('sepsum-getitem', 'f[{}] is not the component'.format(i)))
+        vi, ci = float(f[i](x[i])), float(g[i](y[i]))
+        if not close(ci, float(fi.convex_conj(y[i])), 1.0, 1e-12, 1e-12):
+            out.append(('sepsum-conj-component', 'f.convex_conj[{}](y_i) != f_i.convex_conj(y_i)'.format(i)))
+        tot, totc = tot + vi, totc + ci
+    fx, gy, xy = float(f(x)), float(g(y)), float(x.inner(y))
+    if not close(fx, tot, 1.0, 1e-12, 1e-12) or not close(gy, totc, 1.0, 1e-12, 1e-12):
+        out.append(('sepsum-value', 'sum of f[i](x_i) = {!r}/{!r} but f(x) = {!r}/{!r}'.format(tot, totc, fx, gy)))
+    if math.isfinite(gy) and fx + gy < xy - 1e-9 * max(1.0, abs(fx), abs(gy)):
+        out.append(('fenchel-young-inequality', 'f(x)+f*(y) = {!r} < <x,y> = {!r}'.format(fx + gy, xy)))
+    if len(fs_) >= 2:
+        hits.add('extra/sep/getitem-slice')
+        sl = f[1:]
+        if type(sl).__name__ != 'SeparableSum' or not close(float(sl(x[1:])), tot - float(fs_[0](x[0])), 1.0, 1e-12, 1e-12):
+            out.append(('sepsum-getitem', 'f[1:] is not the separable sum of the tail'))
+        hits.add('extra/sep/getitem-stride')
+        sl = f[::2]
+        want = sum(float(fs_[j](x[j])) for j in range(0, len(fs_), 2))
+        st, got = safe_call(lambda: float(sl(x[::2])))
+        if st != 'ok' or not close(got, want, 1.0, 1e-12, 1e-12):
+            out.append(('sepsum-getitem', 'f[::2] gives {} (expected {!r})'.format(got if st == 'ok' else st, want)))
+    return out
+
+
+def x_factory(cfg, hits):
+    """Pairs of proximal FACTORIES of F(x) = lam ||x - g||_p(^2) and of its conjugate with their
+    options (lam, data term g or None): Moreau decomposition between the two hand-coded
+    operators; proximal_quadratic_perturbation with u=None / negative coefficient."""
+    from odl.solvers.nonsmooth import proximal_operators as PO
+    out = []
+    S = fc.get_space(cfg['space'])
+    sp = S.space
+    x = S.elem(cfg['x'])
+    g = None if cfg['g'] is None else S.elem(cfg['g'])
+    lam, s = float(cfg['lam']), float(cfg['sigma'])
+    pairs = {'l2sq': (PO.proximal_l2_squared, PO.proximal_convex_conj_l2_squared),
+             'l1': (PO.proximal_l1, PO.proximal_convex_conj_l1),
+             'l2': (PO.proximal_l2, PO.proximal_convex_conj_l2)}
+    kind = cfg['kind']
+    if kind == 'quadpert':
+        hits.add('extra/factory/quadpert-u-none')
+        a = float(cfg['a'])
+        st, p = safe_call(lambda: PO.proximal_quadratic_perturbation(PO.proximal_l1(sp), a)(s)(x))
+        # prox of ||.||_1 + a||.||^2: soft threshold at s of x, divided by (1 + 2 s a)
+        xa = np.asarray(x)
+        ref = np.sign(xa) * np.maximum(np.abs(xa) - s, 0) / (1 + 2 * s * a)
+        if st != 'ok' or float((p - sp.element(ref)).norm()) > 1e-9 * max(1.0, float(x.norm())):
+            out.append(('factory-quadpert', 'proximal_quadratic_perturbation(prox_l1, a, u=None): ' +
+                        (st if st != 'ok' else 'differs from the closed form')))
+        st, _ = safe_call(lambda: PO.proximal_quadratic_perturbation(PO.proximal_l1(sp), -a))
+        hits.add('extra/factory/quadpert-negative')
+        if 'ValueError' not in st:
+            out.append(('factory-quadpert', 'negative quadratic coefficient accepted: ' + st))
+        return out
+    P, Q = pairs[kind]
+    hits.add('extra/factory/{}-{}'.format(kind, 'g' if g is not None else 'nog'))
+    st, v = safe_call(lambda: (P(sp, lam=lam, g=g)(s)(x), Q(sp, lam=lam, g=g)(1 / s)(x / s)))
+    if st != 'ok':
+        return [('factory-raises', kind + ': ' + st)]
+    p1, p2 = v
+    resid = float((p1 + s * p2 - x).norm())
+    if not resid <= 1e-8 * max(1.0, float(x.norm())):
+        out.append(('moreau', '{} lam={} g={}: residual {!r}'.format(kind, lam, cfg['g'], resid)))
+    # in-place evaluation (aliased out) must agree
+    for nm, op, arg, want in (('prox', P(sp, lam=lam, g=g)(s), x, p1),
+                              ('conj-prox', Q(sp, lam=lam, g=g)(1 / s), x / s, p2)):
+        z = arg.copy()
+        st, _ = safe_call(lambda: op(z, out=z))
+        if st != 'ok' or float((z - want).norm()) > 1e-12 * max(1.0, float(want.norm())):
+            out.append(('factory-aliased', '{} {} with out=x differs: {}'.format(kind, nm, st)))
+    hits.add('extra/factory/aliased')
+    # point-wise step (sigma in space): the separable pairs satisfy Moreau entry by entry
+    if kind in ('l2sq', 'l1') and cfg.get('sigvec'):
+        hits.add('extra/factory/{}-pointwise-sigma'.format(kind))
+        sv = S.elem(cfg['sigvec'])
+        st, v = safe_call(lambda: (P(sp, lam=lam, g=g)(sv)(x), Q(sp, lam=lam, g=g)(1 / sv)(x / sv)))
+        if st != 'ok':
+            out.append(('factory-raises:{}-pointwise-sigma-{}'.format(kind, 'g' if g is not None else 'nog'),
+                        kind + ' with point-wise sigma: ' + st))
+        else:
+            resid = float((v[0] + sv * v[1] - x).norm())
+            if not resid <= 1e-8 * max(1.0, float(x.norm())):
+                out.append(('moreau', '{} lam={} g={} point-wise sigma: residual {!r}'.format(kind, lam, cfg['g'], resid)))
+            z = x.copy()
+            st, _ = safe_call(lambda: P(sp, lam=lam, g=g)(sv)(z, out=z))
+            if st != 'ok' or float((z - v[0]).norm()) > 1e-12 * max(1.0, float(v[0].norm())):
+                out.append(('factory-aliased', kind + ' prox with point-wise sigma and out=x differs: ' + st))
+    return out
+
+
+def x_mul(cfg, hits):
+    """Functional.__mul__ / __rmul__ corner branches: f * 0 (ConstantFunctional f(0)), 0 * f
+    (ZeroFunctional), f * Operator (FunctionalComp); conjugates of the first two by the oracle."""
+    import odl
+    out = []
+    S = fc.get_space(cfg['space'])
+    sp = S.space
+    x, y = S.elem(cfg['x']), S.elem(cfg['y'])
+    f = fc.build(cfg['recipe'], S, True)
+    f0 = float(f(sp.zero()))
+    for nm, h, const in (('f*0', f * 0, f0), ('0*f', 0 * f, 0.0)):
+        hits.add('extra/mul/' + nm)
+        st, v = safe_call(lambda: (float(h(x)), float(h.convex_conj(y)), float(h.convex_conj(sp.zero())),
+                                    float(h.convex_conj.convex_conj(x))))
+        if st != 'ok':
+            out.append(('mul-zero-raises', nm + ': ' + st))
+            continue
+        hx, gy, g0_, bx = v
+        if hx != const or bx != const:
+            out.append(('mul-zero-value', '({})(x) = {!r}, biconjugate {!r}, expected f(0) = {!r}'.format(nm, hx, bx, const)))
+        if g0_ != -const or (gy != float('inf') and any(cfg['y'])):
+            out.append(('mul-zero-conj', '({})*(0) = {!r}, ({})*(y) = {!r}'.format(nm, g0_, nm, gy)))
+    hits.add('extra/mul/operator')
+    op = odl.ScalingOperator(sp, 2.0)
+    st, v = safe_call(lambda: (type(f * op).__name__, float((f * op)(x)), float(f(2.0 * x))))
+    if st != 'ok' or v[0] != 'FunctionalComp' or not close(v[1], v[2], 1.0, 1e-12, 1e-12):
+        out.append(('mul-operator', 'f * ScalingOperator(2): {}'.format(v if st == 'ok' else st)))
+    return out
+
+
+def x_noconj(cfg, hits):
+    """Classes documented to have no conjugate / gradient must say so (never a wrong object)."""
+    import odl
+    out = []
+    sp = fc.get_space(cfg['space']).space
+    for nm, f in (('simplex', odl.solvers.IndicatorSimplex(sp)),
+                  ('sumconstraint', odl.solvers.IndicatorSumConstraint(sp))):
+        hits.add('extra/noconj/' + nm)
+        for attr in ('convex_conj', 'gradient'):
+            st, _ = safe_call(lambda: getattr(f, attr))
+            if 'NotImplementedError' not in st:
+                out.append(('noconj', '{}.{} gave {}'.format(nm, attr, st)))
+    return out
+
+
+EXTRA = {'nuclear': x_nuclear, 'simple': x_simple, 'box': x_box, 'sep': x_sep, 'factory': x_factory,
+         'mul': x_mul, 'noconj': x_noconj}
+EXTRA_BRANCHES = (
+    ['extra/nuclear/exps={:g},{:g}'.format(a, b) for a, b in
+     ((1, 2), (1, 1), (1, float('inf')), (2, 2), (float('inf'), float('inf')), (float('inf'), 1))] +
+    ['extra/nuclear/fy', 'extra/nuclear/prox-raises', 'extra/nuclear/prox-sv=1', 'extra/nuclear/prox-sv=2',
+     'extra/nuclear/prox-sv=inf', 'extra/nuclear/moreau',
+     'extra/simple/operator-grad', 'extra/simple/callable-grad', 'extra/simple/empty',
+     'extra/box/nonneg', 'extra/box/lo=True,hi=True', 'extra/box/lo=True,hi=False', 'extra/box/lo=False,hi=True',
+     'extra/sep/getitem-int', 'extra/sep/getitem-slice', 'extra/sep/getitem-stride',
+     'extra/factory/l2sq-g', 'extra/factory/l2sq-nog', 'extra/factory/l1-g', 'extra/factory/l1-nog',
+     'extra/factory/l2-g', 'extra/factory/l2-nog', 'extra/factory/aliased',
+     'extra/factory/l2sq-pointwise-sigma', 'extra/factory/l1-pointwise-sigma',
+     'extra/factory/quadpert-u-none', 'extra/factory/quadpert-negative',
+     'extra/mul/f*0', 'extra/mul/0*f', 'extra/mul/operator',
+     'extra/noconj/simplex', 'extra/noconj/sumconstraint'])
+
+
+def extra_configs(rng, quick):
+    tens = [S for S in fc.all_spaces() if not S.is_pspace]
+    cfgs = []
+    exps = [(1, 2), (1, 1), (1, float('inf')), (2, 2), (float('inf'), float('inf')), (float('inf'), 1)]
+    for (n, m, k) in ((2, 2, 3), (3, 2, 2), (2, 3, 2)):
+        for e in exps:
+            for _ in range(1 if quick else 3):
+                cfgs.append(('nuclear', {'shape': [n, m, k], 'exps': list(e),
+                                         'x': fc.rvec(rng, n * m * k), 'y': fc.rvec(rng, n * m * k),
+                                         'sigma': rng.choice([0.5, 1.0, 2.0]), 'pseed': rng.randint(0, 10 ** 6)}))
+    for S in tens:
+        n = S.size
+        for as_op in (True, False):
+            cfgs.append(('simple', {'space': S.name, 'x': fc.rvec(rng, n), 'y': fc.rvec(rng, n),
+                                    'a': rng.choice([0.5, 2.0, 4.0]), 'grad_as_operator': as_op,
+                                    'sigma': rng.choice([0.5, 1.0, 2.0])}))
+        for lo, hi, nn in ((-1.0, 2.0, False), (0.5, None, False), (None, 1.0, False), (None, None, True)):
+            cfgs.append(('box', {'space': S.name, 'x': fc.rvec(rng, n), 'lo': lo, 'hi': hi, 'nonneg': nn,
+                                 'sigma': rng.choice([0.5, 1.0, 2.0])}))
+        for kind in ('l2sq', 'l1', 'l2'):
+            for g in (None, fc.rvec(rng, n)):
+                cfgs.append(('factory', {'space': S.name, 'kind': kind, 'x': fc.rvec(rng, n), 'g': g,
+                                         'sigvec': [rng.choice([0.5, 1.0, 2.0, 0.25]) for _ in range(n)],
+                                         'lam': rng.choice([0.5, 1.0, 2.0, 3.0]),
+                                         'sigma': rng.choice([0.5, 1.0, 2.0, 0.25])}))
+        cfgs.append(('factory', {'space': S.name, 'kind': 'quadpert', 'x': fc.rvec(rng, n), 'g': None,
+                                 'lam': 1.0, 'a': rng.choice([0.5, 1.5, 2.0]), 'sigma': rng.choice([0.5, 1.0, 2.0])}))
+        for r in (['l1'], ['ssum', 1.5, ['l2sq']], ['huber', 0.5], ['trans', fc.rvec(rng, n), ['l2sq']]):
+            cfgs.append(('mul', {'space': S.name, 'recipe': r, 'x': fc.rvec(rng, n),
+                                 'y': fc.rvec(rng, n, nonzero=True)}))
+        cfgs.append(('noconj', {'space': S.name}))
+    for parts in (['l1', 'l2sq'], ['l2', 'hub', 'l1'], ['l2sq'], ['hub', 'l2sq', 'l1', 'l2']):
+        cfgs.append(('sep', {'parts': parts, 'x': [fc.rvec(rng, 3) for _ in parts],
+                             'y': [fc.rvec(rng, 3) for _ in parts]}))
+    return cfgs
+
+
+def extra_stream(ctx, quick):
+    for name, cfg in extra_configs(ctx.rng, quick):
+        hits = set()
+        try:
+            res = EXTRA[name](cfg, hits)
+        except Exception as e:  # noqa  (a mutated repo must give a VIOLATION, not a crash)
+            res = [('extra-raises', '{}: {}'.format(type(e).__name__, str(e)[:160]))]
+        for h in hits:
+            ctx.hit(h)
+        ctx.case(('extra', name, tuple(sorted(hits))))
+        for key, what in res:
+            ctx.violation('{} extra/{} {}'.format(key, name, cfg.get('space', cfg.get('exps', ''))), what,
+                          {'extra': name, 'cfg': cfg})
+
+
+def extra_replay(case):
+    try:
+        res = EXTRA[case['extra']](case['cfg'], set())
+    except Exception as e:  # noqa
+        return 'extra stratum raised {}: {}'.format(type(e).__name__, e)
+    return '; '.join('{}: {}'.format(k, w) for k, w in res) or None
+
+
+# --------------------------------------------------------------------------
+# ROUND 5 (B): SEPFY stream — SeparableSum of modelled parts on the product spaces: f(x),
+# f.convex_conj(y), <x, y> and the class skeletons of the conjugate parts vs the Lean execution of
+# sepValue / sepConj / sepInner (Model/FunctionalsSep.lean); Fenchel-Young, equality at the
+# gradient and biconjugate values by the oracle on the real objects.
+
+def sepfy_stream(ctx, lines, pend, count):
+    import odl.solvers as sol
+    rng = ctx.rng
+    for S in fc.all_spaces():
+        if not S.is_pspace:
+            continue
+        subs = [fc.SpaceInfo('part', sub, 'part') for sub in S.space]
+        for it in range(count):
+            parts = []
+            for Si in subs:
+                r = gen_recipe(rng, Si, rng.randint(0, 2), True)
+                while 'quadmat' in fc.recipe_classes(r):
+                    r = gen_recipe(rng, Si, rng.randint(0, 2), True)
+                parts.append(r)
+            if it == 0:
+                parts = [['lscal', -1.0, ['l1']]] + parts[1:]     # a summand without conjugate
+            xs, ys = point(rng, S, None, 4), point(rng, S, None, 4, small=True)
+            desc = {'sepfy': True, 'space': S.name, 'parts': parts, 'x': xs, 'y': ys}
+            classes = tuple(sorted(set(c for r in parts for c in fc.recipe_classes(r))))
+            key = 'sepsum space={}({}) parts={}'.format(S.name, S.kind, '+'.join(
+                '/'.join(fc.recipe_classes(r)) for r in parts))
+            st, f = safe_call(lambda: sol.SeparableSum(*[fc.build(r, Si, True) for r, Si in zip(parts, subs)]))
+            if st != 'ok':
+                ctx.violation('construct ' + key, 'constructing raised ' + st, desc)
+                continue
+            try:
+                ws = [fc.wire(fi, Si) for fi, Si in zip(f.functionals, subs)]
+            except NoModel as e:
+                ctx.hit('oracle-only:' + str(e)[:40])
+                ws = None
+            toks, k0 = ['sepfy k={}'.format(len(subs))], 0
+            if ws is not None:
+                for i, (wi, Si) in enumerate(zip(ws, subs)):
+                    n = Si.size
+                    toks.append('w{0}={1} f{0}={2} x{0}={3} d{0}={4}'.format(
+                        i, fl(Si.w), wi, fl(xs[k0:k0 + n]), fl(ys[k0:k0 + n])))
+                    k0 += n
+            x, y = S.elem(xs), S.elem(ys)
+            st, g = safe_call(lambda: f.convex_conj)
+            if st != 'ok':
+                ctx.hit('sepfy/conj-raises')
+                exp = any(expected_conj_raise(r) for r in parts) or any(
+                    live_nonpos_left_scalar(fi) for fi in f.functionals)
+                if ws is not None:
+                    lines.append(' '.join(toks))
+                    pend.append(('sepfy', dict(desc, key='convex_conj-raises ' + key), ('raise', st), 'exact'))
+                elif not exp:
+                    ctx.violation('convex_conj-raises ' + key, 'SeparableSum.convex_conj raised ' + st, desc)
+                continue
+            st, v = safe_call(lambda: (float(f(x)), float(g(y)), float(x.inner(y))))
+            if st != 'ok':
+                if 'NotImplementedError' in st:
+                    ctx.hit('sepfy/not-evaluable')
+                else:
+                    ctx.violation('value-raises ' + key, st, desc)
+                continue
+            fx, gy, xy = v
+            ctx.hit('sepfy/fy')
+            ctx.case(('sepfy', S.name, classes) if math.isfinite(fx + gy) and (fx or gy) else None)
+            if math.isfinite(fx) and math.isfinite(gy):
+                if fx + gy < xy - 1e-9 * max(1.0, abs(fx), abs(gy), abs(xy)):
+                    ctx.violation('fenchel-young-inequality ' + key,
+                                  'f(x) + f*(y) = {!r} < <x,y> = {!r}'.format(fx + gy, xy), desc)
+            elif fx != fx or gy != gy or float('-inf') in (fx, gy):
+                ctx.violation('fenchel-young-inequality ' + key, 'f(x) = {!r}, f*(y) = {!r}'.format(fx, gy), desc)
+            # documented rule on the real parts: f*(y) = sum_i f_i*(y_i)
+            st, dv = safe_call(lambda: sum(float(fi.convex_conj(yi)) for fi, yi in zip(f.functionals, y)))
+            if st == 'ok' and not close(gy, dv, 1.0, 1e-9, 1e-9):
+                ctx.violation('sepsum-conj-value ' + key, 'f*(y) = {!r} but sum of f_i*(y_i) = {!r}'.format(gy, dv), desc)
+            # equality at the gradient
+            if math.isfinite(fx):
+                st, gr = safe_call(lambda: f.gradient(x))
+                if st == 'ok' and all(math.isfinite(t) for t in S.flat(gr)):
+                    st, ggr = safe_call(lambda: float(g(gr)))
+                    if st == 'ok' and ggr == float('inf'):
+                        gr = gr * (1 - 1e-12)
+                        st, ggr = safe_call(lambda: float(g(gr)))
+                    if st == 'ok':
+                        ctx.hit('sepfy/fy-eq')
+                        xg = float(x.inner(gr))
+                        if not (math.isfinite(ggr) and abs(fx + ggr - xg) <= 1e-8 * max(1.0, abs(fx), abs(xg))):
+                            ctx.violation('fenchel-young-equality ' + key,
+                                          'at y = grad f(x): f(x)+f*(y) = {!r} but <x,y> = {!r}'.format(fx + ggr, xg),
+                                          dict(desc, y=S.flat(gr), at_gradient=True))
+            st, bx = safe_call(lambda: float(g.convex_conj(x)))
+            if st == 'ok':
+                ctx.hit('sepfy/biconj')
+                if not close(bx, fx, 1.0, 1e-9, 1e-9):
+                    ctx.violation('biconjugate ' + key, 'f**(x) = {!r} but f(x) = {!r}'.format(bx, fx), desc)
+            if ws is not None:
+                try:
+                    sk = '+'.join(fc.skeleton(fc.wire(gi, Si)) for gi, Si in zip(g.functionals, subs))
+                except Exception:  # noqa
+                    sk = None
+                lines.append(' '.join(toks))
+                pend.append(('sepfy', desc, ('ok', fx, gy, xy, sk), 'exact'))
+
+
+def compare_sepfy(ctx, desc, impl, ans):
+    d2 = dict(desc, op='sepfy')
+    if impl[0] == 'raise':
+        ctx.hit('sepfy-model/noconj')
+        if ans != 'noconj' or 'ValueError' not in impl[1]:
+            ctx.disagree(d2, 'raised: ' + impl[1], ans)
+            ctx.violation(desc.get('key', 'convex_conj-raises sepsum'),
+                          'SeparableSum.convex_conj raised {} (model: {})'.format(impl[1], ans),
+                          {k: v for k, v in desc.items() if k != 'key'})
+        return
+    _, fx, gy, xy, sk = impl
+    if not ans.startswith('ok fx='):
+        ctx.disagree(d2, impl, ans)
+        return
+    kv = parse_kv(ans)
+    ctx.hit('sepfy-model/ok')
+
+    def same(v, tok):
+        if tok == 'inf':
+            return v == float('inf')
+        if tok == 'noeval' or not math.isfinite(v):
+            return False
+        return Fraction(v) == core.pfrac(tok)
+    for nm, v in (('fx', fx), ('gy', gy), ('xy', xy)):
+        if not same(v, kv.get(nm, 'noeval')):
+            ctx.disagree(dict(d2, which=nm), v, kv.get(nm))
+    if sk is not None and kv.get('s') != sk:
+        ctx.disagree(dict(d2, which='skeleton'), sk, kv.get('s'))
+
+
+def sepfy_replay(case):
+    import odl.solvers as sol
+    S = fc.get_space(case['space'])
+    subs = [fc.SpaceInfo('part', sub, 'part') for sub in S.space]
+    st, v = safe_call(lambda: sol.SeparableSum(*[fc.build(r, Si, True) for r, Si in zip(case['parts'], subs)]))
+    if st != 'ok':
+        return 'constructing raised ' + st
+    f = v
+    st, g = safe_call(lambda: f.convex_conj)
+    if st != 'ok':
+        return 'convex_conj raised ' + st
+    x, y = S.elem(case['x']), S.elem(case['y'])
+    st, v = safe_call(lambda: (float(f(x)), float(g(y)), float(x.inner(y)), float(g.convex_conj(x)),
+                                sum(float(fi.convex_conj(yi)) for fi, yi in zip(f.functionals, y))))
+    if st != 'ok':
+        return 'evaluation raised ' + st
+    fx, gy, xy, bx, dv = v
+    msgs = []
+    if math.isfinite(fx) and math.isfinite(gy):
+        tol = 1e-8 * max(1.0, abs(fx), abs(gy), abs(xy))
+        if fx + gy < xy - tol:
+            msgs.append('f(x)+f*(y) = {!r} < <x,y> = {!r}'.format(fx + gy, xy))
+        if case.get('at_gradient') and abs(fx + gy - xy) > tol:
+            msgs.append('at y = grad f(x): f(x)+f*(y) = {!r} != <x,y> = {!r}'.format(fx + gy, xy))
+    if not close(bx, fx, 1.0, 1e-9, 1e-9):
+        msgs.append('f**(x) = {!r} != f(x) = {!r}'.format(bx, fx))
+    if not close(gy, dv, 1.0, 1e-9, 1e-9):
+        msgs.append('f*(y) = {!r} != sum f_i*(y_i) = {!r}'.format(gy, dv))
+    return '; '.join(msgs) or None
+
+
 def compare(ctx, pend, outs):
     for (op, desc, impl, stream), ans in zip(pend, outs):
         d2 = dict(desc, op=op)
         ctx.hit('model/' + op)
         if op == 'moreau':
             compare_moreau(ctx, desc, impl, ans, stream)
+            continue
+        if op == 'sepfy':
+            compare_sepfy(ctx, desc, impl, ans)
             continue
         if op == 'conjraise':
             if ans != 'noconj' or 'ValueError' not in str(impl):
@@ -645,6 +1257,8 @@ def run(ctx, deep=False):
         for r in default_conj_recipes(rng, S, 8 if quick else 40):
             ctx.hit('default-conj/' + r[0])
             check_expr(ctx, r, S, 'exact', lines, pend, n_pts=2)
+    extra_stream(ctx, quick)
+    sepfy_stream(ctx, lines, pend, 12 if quick else 60)
     fc.history_stream(ctx, 'C08', 12 if quick else 60)
     fc.wide_stream(ctx, 'C08', 2 if quick else 8)
     fc.forms_stream(ctx, 'C08')
@@ -656,6 +1270,7 @@ def run(ctx, deep=False):
 def search(ctx, broken):
     rng = ctx.rng
     lines, pend = [], []
+    extra_stream(ctx, False)
     for S in fc.all_spaces():
         for r in class_zoo(rng, S):
             check_expr(ctx, r, S, 'general', lines, pend, n_pts=4, oracle_only=True)
@@ -665,6 +1280,10 @@ def search(ctx, broken):
 
 
 def replay(ctx, case):
+    if case.get('extra'):
+        return extra_replay(case)
+    if case.get('sepfy'):
+        return sepfy_replay(case)
     if case.get('history'):
         return fc.history_replay(case)
     if case.get('wide'):
